@@ -3,40 +3,40 @@ From RopeVerif.C05 Require Import Layout Move Domain Refute.
 Import ListNotations.
 
 Lemma rel_alias_refuted :
-  exists w p b dest m, legal_move w p b dest = true /\ breaks_move w (RPy p b) dest m = true.
+  exists w p b dest m, legal_move w p b dest = true /\ breaks_move as_found w (RPy p b) dest m = true.
 Proof. exists w1, [a_], b_, [c_], m_rel_alias. vm_compute. split; reflexivity. Qed.
 
 Lemma to_root_refuted :
-  exists w p b m, wf_layout (w_l w) = true /\ breaks_move w (RPy p b) [] m = true.
+  exists w p b m, wf_layout (w_l w) = true /\ breaks_move as_found w (RPy p b) [] m = true.
 Proof. exists w1, [a_], b_, m_root_alias. vm_compute. split; reflexivity. Qed.
 
 Lemma package_name_refuted :
-  exists w p b dest m, legal_move w p b dest = true /\ breaks_move w (RPy p b) dest m = true
+  exists w p b dest m, legal_move w p b dest = true /\ breaks_move as_found w (RPy p b) dest m = true
                        /\ length (m_imports m) = 1.
 Proof. exists w1, [a_], b_, [c_], m_pkg_name. vm_compute. repeat split; reflexivity. Qed.
 
 Lemma bound_twice_refuted :
-  exists w p b dest m, legal_move w p b dest = true /\ breaks_move w (RPy p b) dest m = true.
+  exists w p b dest m, legal_move w p b dest = true /\ breaks_move as_found w (RPy p b) dest m = true.
 Proof. exists w1, [a_], b_, [c_], m_twice. vm_compute. split; reflexivity. Qed.
 
 Lemma head_bound_refuted :
-  exists w p b dest m, legal_move w p b dest = true /\ breaks_move w (RPy p b) dest m = true.
+  exists w p b dest m, legal_move w p b dest = true /\ breaks_move as_found w (RPy p b) dest m = true.
 Proof. exists w1, [a_], b_, [c_], m_head. vm_compute. split; reflexivity. Qed.
 
 Lemma star_dest_refuted :
-  exists w p b dest m, legal_move w p b dest = true /\ breaks_move w (RPy p b) dest m = true.
+  exists w p b dest m, legal_move w p b dest = true /\ breaks_move as_found w (RPy p b) dest m = true.
 Proof. exists w2, [a_], b_, [c_], m_star. vm_compute. split; reflexivity. Qed.
 
 Lemma leaving_package_refuted :
-  exists w q dest m, wf_layout (w_l w) = true /\ breaks_move w (RDir q) dest m = true.
+  exists w q dest m, wf_layout (w_l w) = true /\ breaks_move as_found w (RDir q) dest m = true.
 Proof. exists w3, [a_; p_], [c_], m_leaving. vm_compute. split; reflexivity. Qed.
 
 Lemma ancestor_attr_refuted :
-  exists w p b dest m, legal_move w p b dest = true /\ breaks_move w (RPy p b) dest m = true.
+  exists w p b dest m, legal_move w p b dest = true /\ breaks_move as_found w (RPy p b) dest m = true.
 Proof. exists w3, [a_; p_], b_, [c_], m_ancestor. vm_compute. split; reflexivity. Qed.
 
 Lemma three_dots_refuted :
-  exists w p b dest m, legal_move w p b dest = true /\ breaks_move w (RPy p b) dest m = true
+  exists w p b dest m, legal_move w p b dest = true /\ breaks_move as_found w (RPy p b) dest m = true
                        /\ breaks_rename w (RPy p b) nb_ m = true.
 Proof. exists w4, [a_; q_; r_], b_, [c_], m_dots. vm_compute. repeat split; reflexivity. Qed.
 
@@ -45,7 +45,7 @@ Lemma rename_twice_refuted :
 Proof. exists w5, (RPy [c_] t_), nb_, m_ren_twice. vm_compute. split; reflexivity. Qed.
 
 Lemma crash_example :
-  exists w p b dest m, legal_move w p b dest = true /\ move_module_text w (RPy p b) dest m = Crash.
+  exists w p b dest m, legal_move w p b dest = true /\ move_module_text as_found w (RPy p b) dest m = Crash.
 Proof. exists w1, [a_], b_, [c_], m_crash. vm_compute. split; reflexivity. Qed.
 
 (* non-vacuity of the theorems' hypotheses *)
@@ -62,9 +62,9 @@ Definition m_ex_rel := mk [a_; p_] [IFrom 1 [] [(b_, None)]] [[b_; f_]; [b_]].
 Definition m_ex_from := mk [c_] [IFrom 0 [a_; p_] [(b_, Some x_)]] [[x_; f_]].
 
 Lemma example_move_domain :
-  move_domain w3 (RPy [a_; p_] b_) [c_] m_ex_import = true
-  /\ move_domain w3 (RPy [a_; p_] b_) [c_] m_ex_rel = true
-  /\ move_domain w3 (RPy [a_; p_] b_) [c_] m_ex_from = true
+  move_domain as_found w3 (RPy [a_; p_] b_) [c_] m_ex_import = true
+  /\ move_domain as_found w3 (RPy [a_; p_] b_) [c_] m_ex_rel = true
+  /\ move_domain as_found w3 (RPy [a_; p_] b_) [c_] m_ex_from = true
   /\ resolve_ref w3 m_ex_import [a_; p_; b_; f_] = Some (OGlob (RPy [a_; p_] b_) f_)
   /\ resolve_ref w3 m_ex_rel [b_; f_] = Some (OGlob (RPy [a_; p_] b_) f_)
   /\ resolve_ref w3 m_ex_from [x_; f_] = Some (OGlob (RPy [a_; p_] b_) f_).
@@ -80,4 +80,19 @@ Lemma example_rename :
   rename_domain w3 (RPy [a_; p_] b_) nb_ m_ex_import = true
   /\ rename_domain w3 (RPy [a_; p_] b_) nb_ m_ex_rel = true
   /\ rename_domain w3 (RPy [a_; p_] b_) nb_ m_ex_from = true.
+Proof. vm_compute. repeat split; reflexivity. Qed.
+
+(* the two witnesses that the repairs address are no longer witnesses under the repaired variant,
+   and fall inside the domains of the extended theorems *)
+Definition m_ex_root := mk [c_] [IFrom 0 [a_] [(b_, Some x_)]] [[x_; f_]; [x_]].
+
+Lemma repaired_examples :
+  breaks_move repaired w1 (RPy [a_] b_) [c_] m_rel_alias = false
+  /\ move_domain repaired w1 (RPy [a_] b_) [c_] m_rel_alias = true
+  /\ move_domain as_found w1 (RPy [a_] b_) [c_] m_rel_alias = false
+  /\ breaks_move repaired w1 (RPy [a_] b_) [] m_root_alias = false
+  /\ root_domain repaired w1 (RPy [a_] b_) m_root_alias = true
+  /\ root_domain repaired w1 (RPy [a_] b_) m_ex_root = true
+  /\ move_module_text repaired w1 (RPy [a_] b_) [c_] m_crash
+     = Done (mk [a_; p_] [IFrom 0 [c_] [(b_, None)]] [[b_; f_]]).
 Proof. vm_compute. repeat split; reflexivity. Qed.
